@@ -4,6 +4,7 @@ use serde_json::Value as J;
 pub mod c03;
 pub mod c04;
 pub mod c05;
+pub mod c06;
 pub mod c10;
 pub mod c16;
 pub mod c17;
@@ -21,6 +22,7 @@ pub fn all() -> Vec<Prop> {
         Prop { id: "C03", run: c03::run, replay: c03::replay },
         Prop { id: "C04", run: c04::run, replay: c04::replay },
         Prop { id: "C05", run: c05::run, replay: c05::replay },
+        Prop { id: "C06", run: c06::run, replay: c06::replay },
         Prop { id: "C10", run: c10::run, replay: c10::replay },
         Prop { id: "C16", run: c16::run, replay: c16::replay },
         Prop { id: "C17", run: c17::run, replay: c17::replay },
